@@ -27,9 +27,10 @@ const (
 	relaxNilResult      = "nil_result_omitted"              // DESIGN §6 item 11
 	relaxIllTypedParse  = "illtyped_member_parse_error"     // well-formed JSON object with a non-string jsonrpc/method answered -32700
 	relaxWsBatch        = "batch_after_long_whitespace"     // a batch preceded by >=128 bytes of white space is not recognised as a batch
+	relaxUnserDropped   = "unserialisable_result_unanswered" // a request with an id whose handler result cannot be serialised gets no response object at all
 )
 
-var allRelax = []string{relaxNotifUnknown, relaxNotifBadParams, relaxNilResult, relaxIllTypedParse, relaxWsBatch}
+var allRelax = []string{relaxNotifUnknown, relaxNotifBadParams, relaxNilResult, relaxIllTypedParse, relaxWsBatch, relaxUnserDropped}
 
 // one fixed violation key per suspected defect (the driver keeps at most six distinct keys per
 // worker process, so the known ones must not multiply)
@@ -39,6 +40,7 @@ var relaxKey = map[string]string{
 	relaxNilResult:      "response_without_result_and_error",
 	relaxIllTypedParse:  "parse_error_code_for_wellformed_request_object",
 	relaxWsBatch:        "batch_not_recognised",
+	relaxUnserDropped:   "request_with_id_gets_no_response_object",
 }
 
 type callSpec struct {
@@ -353,6 +355,22 @@ func classifyEntry(v *jv) (entry, string) {
 		}
 		if bind.bad && idCls == "notif" {
 			e.alts = append(e.alts, alt{respond: true, ids: idNullOnly, errCodes: []int{codeBadParams}, relax: relaxNotifBadParams})
+		}
+		if m.ret == retUnser && bind.ok {
+			// The handler runs once like any other. Its result cannot be put into a response, and the
+			// property still demands "one response object per non-notification request carrying that
+			// request's id and exactly one of result or error": the only response object that can be
+			// built is an error for that id (respCompat accepts every error code; -32603 Internal
+			// error is what the specification offers). Staying silent is the suspected defect.
+			silentOK := false
+			for _, im := range idModes {
+				if !im.respond {
+					silentOK = true
+				}
+			}
+			if !silentOK {
+				e.alts = append(e.alts, alt{respond: false, call: &callSpec{m: m, args: bind.args}, relax: relaxUnserDropped})
+			}
 		}
 	}
 	if lenientInvalid {
